@@ -486,6 +486,7 @@ def rule_counter(ctx):
                                 "forgotten, and what is numbered next draws the same ids again" %
                                 (key.split(" as ")[0].lstrip("<").split("::")[-1] if " as " in key else key.split("::")[-1], "/".join(sorted({t_.get("callee_name") or "?" for t_ in lent}))),
                                 s["sp"]["file"], s["sp"]["line"])
-    if n < 1:
-        raise AnalysisError("R-COUNTER: no place lends a local copy of the counter (Prog::focus does on the pinned tree)")
+    # no floor: a tree on which the counter is only ever lent from `&mut` parameters and fields has nothing to join (Prog::focus is
+    # the one place that lends a copy on the pinned tree; seeded/C03-g keeps the rule alive in bin/selftest)
+    res.inst("counter copies lent: %d" % n, None, None, "ok", nontrivial=False)
     return res
